@@ -7,6 +7,7 @@ Spec: Spec/Rfc8259.lean (RFC 8259 parser), Spec/JsonData.lean (domain, denotatio
 Lemmas: Proofs/JsonString.lean, Proofs/JsonWf.lean.
 -/
 import ZygoVerif.Proofs.JsonWf
+import ZygoVerif.Proofs.JsonHistory
 import ZygoVerif.Model.LegacyJson
 namespace ZygoVerif.Props.C11
 open ZygoVerif.Print ZygoVerif.Rfc8259 ZygoVerif.Json ZygoVerif.JsonData
@@ -72,16 +73,8 @@ theorem json_roundtrip_string_partial (fp : FloatParse) (s : Bytes) (bt : Bool) 
   rw [json_wellformed_string s bt hv]
   simp [ofJson]
 
-/-- A msgpack codec over decoded JSON data (what `GoToMsgpack` / `MsgpackToGo` do with the
-Go value that `JsonToGo` produced). -/
-structure MsgpackCodec where
-  enc : JValue → Bytes
-  dec : Bytes → Option JValue
-
-/-- `SexpToMsgpack`: JSON text → Go value → msgpack -/
-def msgpack (c : MsgpackCodec) (v : V) : Option Bytes := (Rfc8259.parse (sexpToJson v)).map c.enc
-/-- `MsgpackToSexp` -/
-def unmsgpack (c : MsgpackCodec) (fp : FloatParse) (b : Bytes) : Option V := (c.dec b).bind (ofJson fp false)
+/-! `MsgpackCodec`, `msgpack` (= `SexpToMsgpack`) and `unmsgpack` (= `MsgpackToSexp`) are defined in
+Model/Json.lean (the history model Model/JsonHistory.lean uses them too). -/
 
 /-- **msgpack** is a corollary: under the codec round-trip law `dec (enc g) = g`, the
 msgpack round trip of a value equals its JSON round trip. -/
@@ -97,6 +90,128 @@ not do, so the witness keeps the value in a side table — here the trivial "enc
 decode a constant" codec restricted to that constant. -/
 example : ∃ (c : MsgpackCodec) (g : JValue), c.dec (c.enc g) = some g :=
   ⟨{ enc := fun _ => [], dec := fun _ => some .null }, .null, rfl⟩
+
+/-! ### Histories: an encoded result is a value
+
+`(unmsgpack (msgpack v))` written as one expression is only the shortest history. The
+property does not say "at once": a script keeps the raw value, a Go caller keeps the slice,
+other values are encoded and decoded in between, and the kept result must still decode to
+`v`. Spec/JsonHistory.lean states this for any implementation seen as a transition system
+(`EncodeResultsStable`, `HistoryRoundTrip`) and gives the reference semantics of the `hist`
+ops of channel `json` (`specRun`: a slot IS the value it was made from). The model of the
+code that exists (Model/JsonHistory.lean `machine`: every encode result is an immutable cell
+of an append-only store — there is no package-level buffer, cache or handle that an encode
+or decode writes, tie T1 through C20's `globals_writes_allowed`) satisfies both laws for
+ALL histories, and answers every history exactly as the reference does. On a pure model
+these proofs are short; the point is the statement, which the correspondence then checks
+on the real code step by step (impl vs `specRun`). -/
+
+open ZygoVerif.JsonHistory in
+/-- **Encoded results are values** (law 1, all histories): after any prefix of encodes and
+decodes, the holder of an encode result reads the same bytes after any suffix. -/
+theorem encode_results_stable (c : Codecs) (fp : FloatParse) : EncodeResultsStable (machine c fp) :=
+  Proofs.JsonHistory.encode_results_stable c fp
+
+open ZygoVerif.JsonHistory in
+/-- The law is not true of every machine: with ONE output buffer that is reset and reused,
+the returned slice aliasing it (the shape of a seeded mutation; not /repo), the bytes held
+for `nil` read `true` after `true` has been encoded. -/
+theorem encode_results_stable_sharedbuf_counterexample (c : Codecs) (fp : FloatParse) :
+    ¬ EncodeResultsStable (sharedBufMachine c fp) := by
+  intro h
+  have h1 := h [] [.enc .json (.bool true)] .json .nil
+  simp [sharedBufMachine, Machine.ops, Machine.op, encBytes, sexpToJson, sexpString, asciiBytes] at h1
+
+open ZygoVerif.JsonHistory in
+/-- **`decode (encode v) = v` at every step of every history** (law 2; partial exactly as
+`json_roundtrip` is: the one-step round trip `rt` of the values concerned is a hypothesis).
+Whatever was encoded or decoded before and in between, decoding a kept result gives
+`norm v`. -/
+theorem history_roundtrip_partial (c : Codecs) (fp : FloatParse) (dom : Fmt → V → Prop)
+    (rt : ∀ f v, dom f v → (encBytes c f v).bind (decBytes c fp f) = some (norm v)) :
+    HistoryRoundTrip (machine c fp) dom :=
+  Proofs.JsonHistory.history_roundtrip c fp dom rt
+
+open ZygoVerif.JsonHistory in
+/-- Strings, unconditionally for JSON and under the codec law for msgpack: every history
+round-trips every valid-UTF-8 string. -/
+theorem history_roundtrip_string (c : Codecs) (fp : FloatParse) (law : ∀ g, c.mp.dec (c.mp.enc g) = some g) :
+    HistoryRoundTrip (machine c fp)
+      (fun f v => f ≠ .gojson ∧ ∃ s bt, v = .str s bt ∧ validUtf8 s = true) := by
+  apply history_roundtrip_partial
+  rintro f v ⟨hf, s, bt, rfl, hv⟩
+  cases f with
+  | json => simpa [encBytes, decBytes, norm] using json_roundtrip_string_partial fp s bt hv
+  | msgpack =>
+    have := msgpack_roundtrip c.mp law fp (.str s bt)
+    rw [json_roundtrip_string_partial fp s bt hv] at this
+    have e : decBytes c fp .msgpack = unmsgpack c.mp fp := rfl
+    simpa [encBytes, e, norm] using this
+  | gojson => exact absurd rfl hf
+
+example : (fun (f : JsonHistory.Fmt) (v : V) => f ≠ .gojson ∧ ∃ s bt, v = .str s bt ∧ validUtf8 s = true)
+    .msgpack (.str [0x22, 0x5C] false) := ⟨by decide, _, _, rfl, by decide +kernel⟩
+
+open ZygoVerif.JsonHistory in
+/-- **The history theorem on the op language that the correspondence runs**: for every list
+of values whose one-step JSON round trip holds (`json_roundtrip`; proved for strings,
+sampled by the `rt` ops otherwise; asked of a value and of the value after `mv` has
+overwritten its first element) and every list of steps — encodes in any format and
+interpreter, decodes of any kept slot in any order, stability questions, the holder
+overwriting its bytes, mutations of decoded results, mutations of the ORIGINAL values
+between encodes — the model answers exactly what the reference machine answers: each decode
+gives `norm` of the value the slot was made from as it was when the slot was made, each
+stability question `same`, and a decoded result changes only when it is mutated itself.
+No bound on the number of values or steps. -/
+theorem history_model_eq_spec (c : Codecs) (fp : FloatParse) (law : ∀ g, c.mp.dec (c.mp.enc g) = some g)
+    (vals : List V)
+    (rt : ∀ v ∈ vals, unjson fp (sexpToJson v) = some (norm v) ∧
+      ∀ v', setFirstV v = some v' → unjson fp (sexpToJson v') = some (norm v'))
+    (steps : List Step) :
+    modelRun c fp vals steps = specRun vals steps := by
+  have good : ∀ v, unjson fp (sexpToJson v) = some (norm v) → Proofs.JsonHistory.Good c fp v := by
+    intro v h f
+    unfold unjson at h
+    cases hp : Rfc8259.parse (sexpToJson v) with
+    | none => rw [hp] at h; simp at h
+    | some g =>
+      rw [hp] at h
+      cases f with
+      | json => exact ⟨_, rfl, fun _ => by simpa [decBytes, unjson, hp] using h⟩
+      | msgpack => exact ⟨c.mp.enc g, by simp [encBytes, msgpack, hp], fun _ => by simpa [decBytes, unmsgpack, law] using h⟩
+      | gojson => exact ⟨c.gj.enc g, by simp [encBytes, msgpack, hp], fun hne => absurd rfl hne⟩
+  apply Proofs.JsonHistory.runFrom_sim c fp steps _ _ (Proofs.JsonHistory.rel_init c fp vals _)
+  intro v hv
+  exact ⟨good v (rt v hv).1, fun v' h' => good v' ((rt v hv).2 v' h')⟩
+
+/-- the hypotheses are satisfiable: a history over two strings (`mv` does not apply to a string) -/
+example (fp : FloatParse) : ∀ v ∈ [V.str [0x61] false, V.str [0x22, 0x0A] true],
+    unjson fp (sexpToJson v) = some (norm v) ∧
+      ∀ v', JsonHistory.setFirstV v = some v' → unjson fp (sexpToJson v') = some (norm v') := by
+  intro v hv
+  simp only [List.mem_cons, List.not_mem_nil, or_false] at hv
+  rcases hv with rfl | rfl
+  · exact ⟨json_roundtrip_string_partial fp _ _ (by decide +kernel), fun v' h => by simp [JsonHistory.setFirstV] at h⟩
+  · exact ⟨json_roundtrip_string_partial fp _ _ (by decide +kernel), fun v' h => by simp [JsonHistory.setFirstV] at h⟩
+
+open ZygoVerif.JsonHistory in
+/-- **Decoded results are independent**: a mutation of result cell `r` (`aset`, `hset` on a
+decoded structure) changes no other result cell, no kept encode result and nothing else of
+the state — on the model and on the reference alike (`mutate` is the same function of the
+result list on every machine; what the correspondence checks is that the real decoders
+build structures that share nothing). -/
+theorem decode_results_independent {σ E : Type} (st st' : St σ E) (r : Nat) (fn : V → Option V) (o : Out)
+    (h : mutate st r fn = some (st', o)) :
+    st'.m = st.m ∧ st'.slots = st.slots ∧ ∀ r', r' ≠ r → st'.results[r']? = st.results[r']? := by
+  unfold mutate at h
+  split at h
+  · simp at h
+  · simp only [Option.some.injEq, Prod.mk.injEq] at h; obtain ⟨rfl, _⟩ := h; exact ⟨rfl, rfl, fun _ _ => rfl⟩
+  · split at h
+    · simp only [Option.some.injEq, Prod.mk.injEq] at h
+      obtain ⟨rfl, _⟩ := h
+      exact ⟨rfl, rfl, fun r' hr => by simp [List.getElem?_set_ne (Ne.symm hr)]⟩
+    · simp only [Option.some.injEq, Prod.mk.injEq] at h; obtain ⟨rfl, _⟩ := h; exact ⟨rfl, rfl, fun _ _ => rfl⟩
 
 /-! ### Why the pre-fix encoder was wrong: Go quoting is not JSON quoting
 
